@@ -130,6 +130,36 @@ theorem wf_DiscoItemsIq : DiscoItemsIq.WF := by decide
 theorem wf_VCardAddress : VCardAddress.WF := by decide
 theorem wf_VCardEmail : VCardEmail.WF := by decide
 theorem wf_VCardPhone : VCardPhone.WF := by decide
+theorem wf_PubSubSubscription : PubSubSubscription.WF := by decide
+theorem wf_PubSubSubscriptionEvent : PubSubSubscriptionEvent.WF := by decide
+theorem wf_PubSubSubscriptionOwner : PubSubSubscriptionOwner.WF := by decide
+/-- the REPAIRED MAM query (fixes/C01-mamquery-queryid.diff); today's code is `MamQueryIqCode`, see below -/
+theorem wf_MamQueryIq : MamQueryIq.WF := by decide
+
+/-! ## defects of today's code -/
+
+/-- a MAM query with query id "q1" and nothing else -/
+def mamWitness : List Val := [.str [], .str "q1".toList, .record [.opt none, .record [.str []], .record [.str []], .list []],
+  .record [.record [.opt none], .absent, .absent, .record [.opt none]]]
+
+/-- today's `QXmppMamQueryIq` is not a well-formed codec: it reads `queryId` and writes `queryid` -/
+theorem C01_defect_mam_queryid_not_wf : ¬ MamQueryIqCode.WF := by decide
+
+/-- **Defect (recorded finding `C01:field-mismatch:MamQueryIq:queryId`).**  The full statement `decode (encode v) = v`
+fails for today's `QXmppMamQueryIq`: the query id "q1" is written as `queryid="q1"` and read back as empty. -/
+theorem C01_defect_mam_queryid :
+    ¬ (∀ v, MamQueryIqCode.Canon v → MamQueryIqCode.decode (MamQueryIqCode.encode v) = v) := by
+  intro h
+  have h1 := h mamWitness (by decide)
+  -- the query id the class reports after the round trip is empty
+  have h2 : ((MamQueryIqCode.decode (MamQueryIqCode.encode mamWitness)).getD 1 .absent).getStr = [] := by decide +kernel
+  rw [h1] at h2
+  revert h2
+  decide
+
+/-- …and the repaired class keeps it (instance of `decode_encode`) -/
+example : MamQueryIq.decode (MamQueryIq.encode mamWitness) = mamWitness :=
+  decode_encode MamQueryIq wf_MamQueryIq mamWitness (by decide)
 
 /-! ## tie of the hand-written schemas to the C++ source (literal drift) -/
 
